@@ -21,7 +21,7 @@ def run(ctx):
     ctx.trusted += ["modelled, not verified: the effect analysis + z3 behind Check_Bounds / alloc_check etc. "
                     "(their verdicts are only observed through accepted/rejected rewrites)"]
     broken = ctx.lean_obligations(["ExoModel.Props.C04", "ExoModel.Props.C04Shapes", "ExoModel.Props.C04Shapes2"], build_targets=["ExoModel.Props.C04", "ExoModel.Props.C04Shapes", "ExoModel.Props.C04Shapes2", "ExoModel.WfTie"])
-    recs = sched_run.run_stream(ctx, ["obs_wf", "obs_sem", "wftie"], nvariants=ctx.scale(1, 3),
+    recs = sched_run.run_stream(ctx, ["obs_wf", "obs_sem", "wftie"], nvariants=ctx.scale(1, 3), extra=__import__("pool").REGRESSION,
                                 opts={"depth": ctx.scale(1, 2), "n_inputs": ctx.scale(2, 5),
                                       "compile_every": ctx.scale(25, 8), "safety_only": True})
     nviol = 0
